@@ -10,7 +10,7 @@ import engine
 from common import ROOT, BUILD, ML, sh
 
 TERM = {'completed', 'submitted', 'backed', 'cancelled', 'error', 'aborted', 'skipped', 'removed'}
-ALL_KINDS = {'N', 'T', 'M', 'P', 'A', 'X', 'Q', 'D', 'BUILD-FAILED', 'CASE-ERROR', 'GONE', 'OUT-OF-FUEL', 'START-FAILED'}
+ALL_KINDS = {'N', 'T', 'M', 'P', 'A', 'X', 'Q', 'D', 'F', 'BUILD-FAILED', 'CASE-ERROR', 'GONE', 'OUT-OF-FUEL', 'START-FAILED'}
 
 # property -> (line kinds its theorems depend on, oracle clause range)
 PROPS = {
@@ -19,6 +19,7 @@ PROPS = {
     'C03': ({'N', 'T', 'P', 'A', 'D'}, (300, 400)),
     'C05': ({'N', 'T', 'M', 'P', 'A', 'Q'}, (500, 600)),
     'C08': ({'N', 'T', 'M', 'A'}, (800, 900)),
+    'C19': ({'N', 'T', 'F', 'A', 'Q'}, (1900, 2000)),
 }
 CLAUSE_TEXT = {
     101: "quiescent, process not ended, and nothing a client could answer (no open interrupt act, no pending timeout)",
@@ -32,6 +33,8 @@ CLAUSE_TEXT = {
     801: "second created message of one task", 802: "second terminal message of one task", 803: "terminal message without a created message for a task that started",
     804: "message for a branch", 805: "message state differs from the task state", 806: "terminal task without terminal message",
     807: "message act that ran did not send exactly one message", 808: "child's created message before its parent's",
+    1901: "timeout rule fired before the task had been open for the configured duration", 1902: "timeout rule fired twice for one task",
+    1903: "timeout rule fired for a task that is already terminal",
     901: "task creation index out of order", 902: "transition does not start from the task's recorded state", 903: "action result without operation",
 }
 
